@@ -27,10 +27,12 @@ KINDS = {
     "ohdr1-cont": (3, set()),
     "ohdr2": (4, {"ohdr-no-checksum"}),
     "msg-dataspace": (5, set()),
-    "msg-datatype": (6, {"fixed-props-malformed", "float-props-malformed", "float64-bias-127", "string-extra-prop-byte"}),
+    "msg-datatype": (6, {"fixed-props-malformed", "float-props-malformed", "float64-bias-127", "string-extra-prop-byte",
+                         "compound-v3-layout", "enum-v3-layout"}),
     "msg-layout": (7, set()),
     "msg-pipeline": (8, {"pipeline-v2-with-v1-layout"}),
-    "msg-attribute": (9, {"fixed-props-malformed", "float-props-malformed", "float64-bias-127", "string-extra-prop-byte"}),
+    "msg-attribute": (9, {"fixed-props-malformed", "float-props-malformed", "float64-bias-127", "string-extra-prop-byte",
+                          "compound-v3-layout", "enum-v3-layout"}),
     "msg-attrinfo": (10, set()),
     "msg-link": (11, {"extlink-value-layout"}),
     "msg-symtab": (12, set()),
@@ -82,7 +84,7 @@ def v_dtype(t, tags, raw):
     """the projection Model.SpecTie.v_dtype prints, from the Python decoder's dict"""
     c, s = t["cls"], t["size"]
     if c == 0:
-        prec = 8 * s if "fixed-props-malformed" in tags else t["precision"]
+        prec = 8 * s if t.get("malformed", "fixed-props-malformed" in tags) else t["precision"]
         return VL([VN(0), VN(s), VBOOL(t["signed"]), VN(1 if t["order"] == "BE" else 0), VN(prec)])
     if c == 1:
         return VL([VN(1), VN(s), VN(1 if t["order"] == "BE" else 0)])
@@ -90,7 +92,13 @@ def v_dtype(t, tags, raw):
         return VL([VN(3), VN(s), VN(t["pad"]), VN(t["cset"])])
     if c == 5:
         tl = t["bits"] & 0xFF
-        return VL([VN(5), VN(s), VB(raw[8:8 + tl])])
+        return VL([VN(5), VN(s), VB(t["tagraw"] if "tagraw" in t else raw[8:8 + tl])])
+    if c == 6:
+        return VL([VN(6), VN(s), VL([VL([VB(m["name"]), VN(m["off"]), v_dtype(m["dt"], tags, b"")]) for m in t["members"]])])
+    if c == 8:
+        return VL([VN(8), VN(s), v_dtype(t["base"], tags, b""), VL([VL([VB(nm), VB(v)]) for nm, v in t["emembers"]])])
+    if c == 10:
+        return VL([VN(10), VN(s), VNL(t["adims"]), v_dtype(t["base"], tags, b"")])
     if c == 7:
         return VL([VN(7), VN(s), VN(t["bits"] & 0xF)])
     if c == 9:
@@ -112,7 +120,10 @@ class RecWalker(h5spec.Walker):
         code, mine = KINDS[kind]
         if tags is None:
             tags = {t for t, _, _ in self.dev[dev0:]}
-        tags = sorted(set(tags) & mine, key=lambda t: TAGS[t])
+        if isinstance(tags, list):
+            tags = [t for t in tags if t in mine]      # datatypes: the deviations in the order met, one per nested description (as the Coq decoder lists them)
+        else:
+            tags = sorted(set(tags) & mine, key=lambda t: TAGS[t])
         self.structs.append(dict(kind=kind, ctx=[int(x) for x in ctx], bytes=bytes(raw), tags=tags, fields=fields, where=str(where)[:80]))
 
     def rej(self, kind, ctx, raw, e, where=""):
@@ -128,7 +139,8 @@ class RecWalker(h5spec.Walker):
             self.rej(kind, ctx, raw, e, where)
             raise
         tags = {t for t, _, _ in self.dev[d0:]}
-        self.rec(kind, ctx, raw, d0, (lambda: fields(res, tags)), where, tags=tags)      # fields are built only for sampled structures
+        tl = [t for t, _, _ in self.dev[d0:]] if kind in ("msg-datatype", "msg-attribute") else tags
+        self.rec(kind, ctx, raw, d0, (lambda: fields(res, tags)), where, tags=tl)      # fields are built only for sampled structures
         return res
 
     # -- level 0
